@@ -100,13 +100,47 @@ def bounds(tier, seed):
     )
 
 
+def _big(spec):
+    n, m, sd = spec
+    rng = np.random.default_rng([int(sd), n, m, 1010])
+    return np.round(rng.standard_normal((n, m)) * (0.7 ** np.arange(m)) * 256) / 256
+
+
 def groups(tier, seed):
-    return [dict(label=l, X=X, seed=seed, tier=tier) for l, X in _datas(tier, seed)]
+    out = [dict(label=l, X=X, seed=seed, tier=tier) for l, X in _datas(tier, seed)]
+    # the whole problem in small / large units (X and y times the same power of two): every reported quantity has a
+    # known scaling law, the reference is recomputed on the scaled data
+    for l, X in _datas(tier, seed):
+        if l in ("tall6x3", "wide6x8", "rank2_6x4"):
+            for u, tag in ((2.0 ** -13, "unit2^-13"), (2.0 ** 17, "unit2^17")):
+                out.append(dict(label=l + "_" + tag, X=X, seed=seed, tier=tier, unit=u))
+    # many rows (size-dependent code paths): 1200 x 4, and 5 x 1100 (wide)
+    out.append(dict(label="big1200x4", big=[1200, 4, seed], seed=seed, tier=tier))
+    out.append(dict(label="big6x1100", big=[6, 1100, seed], seed=seed, tier=tier))
+    return out
 
 
 def cases(group):
+    if "big" in group:
+        n, m, sd = group["big"]
+        Xb = _big(group["big"])
+        for y in _ys(n, sd, Xb[:, :8])[:2]:
+            for atype, grid in (("absolute", ABS_GRID), ("relative", REL_GRID)):
+                for method in ("tikhonov", "cutoff"):
+                    for scoring in SCORERS:
+                        for f in (dict(kind="kfold", shuffle=False, seed=None), dict(kind="kfold", shuffle=True, seed=1)):
+                            yield dict(big=group["big"], y=y, alphas=grid, alpha_type=atype, method=method, scoring=scoring, fold=f, n_jobs=None)
+        return
     X = group["X"]
     n = len(X)
+    if "unit" in group:
+        for y in _ys(n, group["seed"], X):
+            for atype, grid in (("absolute", ABS_GRID), ("relative", REL_GRID)):
+                for method in ("tikhonov", "cutoff"):
+                    for scoring in SCORERS:
+                        for f in _folds(n, "quick")[:8]:
+                            yield dict(X=X, y=y, alphas=grid, alpha_type=atype, method=method, scoring=scoring, fold=f, n_jobs=None, unit=group["unit"])
+        return
     for y in _ys(n, group["seed"], X):
         for atype, grid in (("absolute", ABS_GRID), ("relative", REL_GRID)):
             for method in ("tikhonov", "cutoff"):
@@ -164,8 +198,11 @@ def check(case):
     from skmatter.linear_model import Ridge2FoldCV
 
     r = R()
-    X = np.array(case["X"], float)
+    X = _big(case["big"]) if "big" in case else np.array(case["X"], float)
     y = np.array(case["y"], float)
+    if case.get("unit"):
+        X = X * case["unit"]
+        y = y * case["unit"]
     n, m = X.shape
     X_fit = X.astype(np.int64) if case.get("int_dtype") else X  # integer-valued data handed over with an integer dtype
     alphas = np.array(case["alphas"], float)
@@ -186,9 +223,16 @@ def check(case):
     with warnings.catch_warnings():
         warnings.simplefilter("ignore")
         try:
-            if case.get("used"):  # a USED estimator: fitted before on other data of the same shape
-                model.fit(X[::-1, ::-1] * 0.5 + 0.25, y[::-1] * -1.5 + 0.5)
-            model.fit(X_fit.copy(), y.copy())
+            if case.get("used") and not case.get("int_dtype"):
+                # a USED estimator whose caller reuses its arrays: fitted on other data of the same shape held in the
+                # caller's buffers, which are refilled in place for the fit that is judged
+                bX, by = np.ascontiguousarray(X[::-1, ::-1] * 0.5 + 0.25, dtype=float), np.ascontiguousarray(y[::-1] * -1.5 + 0.5, dtype=float)
+                model.fit(bX, by)
+                bX[...] = X
+                by[...] = y
+                model.fit(bX, by)
+            else:
+                model.fit(X_fit.copy(), y.copy())
         except Exception as e:
             return r.fail("crash:%s" % type(e).__name__, repr(e))
     # ---- reference
@@ -217,18 +261,20 @@ def check(case):
     cvs = np.array(cvs)
     got = np.asarray(model.cv_values_, float)
     r.states = len(alphas) + 1
-    tol = 1e-7 * np.maximum(1.0, np.abs(cvs))
+    ys = float(np.abs(y).max()) if case.get("unit") else 1.0  # scaled problems: the score's own unit
+    cv_unit = 1.0 if case["scoring"] == "r2" else (ys if case["scoring"] == "neg_root_mean_squared_error" else ys * ys)
+    tol = 1e-7 * np.maximum(cv_unit, np.abs(cvs))
     if got.shape != cvs.shape or (np.abs(got - cvs) > tol).any():
         return r.fail("cv-values-differ-from-explicit-two-fold-cv", "reported %s, explicit %s (scoring %s, %s %s)" % (got.tolist(), cvs.tolist(), case["scoring"], case["alpha_type"], case["method"]))
     best = cvs.max()
-    tied = [i for i in range(len(alphas)) if cvs[i] >= best - 1e-9 * max(1.0, abs(best))]
+    tied = [i for i in range(len(alphas)) if cvs[i] >= best - 1e-9 * max(cv_unit, abs(best))]
     a_rep = float(model.alpha_)
     idx = [i for i in range(len(alphas)) if alphas[i] == a_rep]
     if not idx or idx[0] not in tied:
         return r.fail("alpha-not-best-grid-value", "alpha_ %r, best grid values %s" % (a_rep, [float(alphas[i]) for i in tied]))
     if len(tied) == 1 and idx[0] != tied[0]:
         return r.fail("alpha-not-first-maximiser", "")
-    if abs(float(model.best_score_) - best) > 1e-7 * max(1.0, abs(best)):
+    if abs(float(model.best_score_) - best) > 1e-7 * max(cv_unit, abs(best)):
         return r.fail("best-score-wrong", "%r vs %r" % (model.best_score_, best))
     Wf, jf = _solve(U, s, Vt, rk, Y2, alphas[idx[0]] * scale, case["method"])
     if not jf:
